@@ -52,6 +52,14 @@ func (o *optimizer) optimizeAllFiles(printer FilePrinter) {
 
 func (o *optimizer) optimizeImports(f *loader.File) {
 	before := importPaths(f.File)
+	dotImports := map[string]bool{}
+	for _, spec := range f.File.Imports {
+		if spec.Name != nil && spec.Name.Name == "." {
+			if path, err := strconv.Unquote(spec.Path.Value); err == nil {
+				dotImports[path] = true
+			}
+		}
+	}
 	imports.Clean(o.m.Loader, f)
 
 	// only the import of co becomes unused by rewriting,
@@ -63,9 +71,32 @@ func (o *optimizer) optimizeImports(f *loader.File) {
 	}
 	for _, path := range before {
 		if !after[path] && path != pkgCoPath {
-			astutil.AddNamedImport(f.Pkg.Fset, f.File, "_", path)
+			name := "_"
+			if dotImports[path] && hasUnresolvedNames(f.Pkg) {
+				// whether a dot import is used is only known by type info, which is incomplete
+				// when the imported pkg is generated in the same run (its symbols do not exist yet),
+				// so the dot import is kept as it is
+				name = "."
+				// f.Imports isn't updated by imports.Clean, AddNamedImport would take the import for present
+				for i, spec := range f.File.Imports {
+					if spec.Name != nil && spec.Name.Name == "." && spec.Path.Value == strconv.Quote(path) {
+						f.File.Imports = append(f.File.Imports[:i:i], f.File.Imports[i+1:]...)
+						break
+					}
+				}
+			}
+			astutil.AddNamedImport(f.Pkg.Fset, f.File, name, path)
 		}
 	}
+}
+
+func hasUnresolvedNames(pkg *loader.Package) bool {
+	for _, err := range pkg.Errors {
+		if strings.Contains(err.Msg, "undefined: ") || strings.Contains(err.Msg, "could not import") {
+			return true
+		}
+	}
+	return false
 }
 
 // the paths of import decls (f.Imports isn't updated by imports.Clean)
